@@ -1,6 +1,30 @@
 /-
-  C10 property theorems.
+  C10 — State resolution returns the state the room version's algorithm defines.
+  (first instalment: algorithm selection per room version, regenerated from eventversion.go;
+   the stage-wise refinement theorems are in progress, see DESIGN.md §5 C10)
 -/
 import VModel.StateRes
 namespace V.C10
+open V V.StateRes
+
+/-- Which algorithm each registered room version selects: v1 for "1"; v2 for 2–11 and the unstable versions based
+    on them; v2.1 for "12" and org.matrix.hydra.11.  Breaks when someone edits the table. -/
+theorem stateres_column_eq_spec :
+    VGen.roomVersions.map (fun r => (r.key, r.stateResAlgorithm)) =
+      [("1", 1), ("10", 2), ("11", 2), ("12", 3), ("2", 2), ("3", 2), ("4", 2), ("5", 2), ("6", 2), ("7", 2), ("8", 2), ("9", 2),
+       ("org.matrix.hydra.11", 3), ("org.matrix.msc3667", 2), ("org.matrix.msc3787", 2), ("org.matrix.msc4014", 2)] := by
+  decide
+
+/-- `ResolveConflictsNew` runs exactly the algorithm the table names (and nothing for an unknown version). -/
+theorem entrypoint_selects (sha : ID → Bytes) (ver : Bytes) (sets : List (List Event)) (auth : List Event) (rej : List ID)
+    (row : VGen.VersionRow) (h : versionRow? ver = some row) :
+    resolveConflictsNew sha ver sets auth rej =
+      if row.stateResAlgorithm == 1 then
+        some ((resolveV1 sha (splitConflictedUnconflicted true sets).1 auth ++ (splitConflictedUnconflicted true sets).2).map (·.eventID))
+      else if row.stateResAlgorithm == 2 || row.stateResAlgorithm == 3 then
+        some (resolveV2New row.stateResAlgorithm sets auth rej).result
+      else none := by
+  unfold resolveConflictsNew
+  simp only [h]
+
 end V.C10
